@@ -11,7 +11,7 @@ validators from the stored timestamp and size, If-None-Match / If-Modified-Since
   (D) the counterexamples are replayed on the real WSGI application: a reproduced counterexample is a defect
       of the code under test, and tells which model variant describes this tree;
   (R) TLC behaviours (-simulate) of that variant are replayed on the real application (file and sqlite caches,
-      three creation paths, five flavours) with response and store compared after every step;
+      three creation paths, five flavours and the merged WMS-C answer) with response and store compared after every step;
   (T) seeded random histories of the real application are validated by TLC against spec/trace/Trace_HttpCond.tla
       and the property is evaluated on every step of every accepted history.
 """
@@ -36,8 +36,13 @@ TRACE_SPEC = os.path.join(tlc.SPEC_DIR, 'trace', 'Trace_HttpCond.tla')
 
 T0 = 1500000000                      # virtual epoch (2017-07-14 02:40:00 UTC); the clock counts half seconds from here
 FLAVOURS = ['tms', 'wmts_kvp', 'wmts_rest', 'kml', 'wmsc']
+# a WMS-C request (tiled=true) for two cached layers: the tile under test below the layer 'over' of transparent tiles that
+# never change - a merged answer, which has no validators (LayerMerger.merge hands on cacheable or not, never the
+# CacheInfo of one layer)
+MERGED = 'wmsc2'
+ALL_FLAVOURS = FLAVOURS + [MERGED]
 HANDLER = {'tms': 'service/tile.py', 'wmts_kvp': 'service/wmts.py', 'wmts_rest': 'service/wmts.py',
-           'kml': 'service/kml.py', 'wmsc': 'service/wms.py'}
+           'kml': 'service/kml.py', 'wmsc': 'service/wms.py', 'wmsc2': 'service/wms.py + image/merge.py'}
 PATHS = ['single', 'meta', 'bulk', 'merge', 'link']
 # 'merge' is a second world for the model path "single": a cache with two sources (an opaque base and a transparent
 # overlay) whose images MapProxy merges; on an upstream failure the overlay is the one that answers 500 and is mapped by
@@ -51,7 +56,7 @@ BACKENDS = ['file', 'sqlite']
 # tiles of level 1 of the grid (4 x 4 tiles, north-west origin): t1,t2 share a 2x2 meta tile, t3,t4 the next one
 COORD = {'t1': (0, 0, 1), 't2': (1, 0, 1), 't3': (2, 0, 1), 't4': (3, 0, 1)}
 META = {'t1': {'t1', 't2'}, 't2': {'t1', 't2'}, 't3': {'t3', 't4'}, 't4': {'t3', 't4'}}
-PROPS = ['StatusOK', 'StableValidators', 'BodyCurrent', 'INMCurrent', 'Sound304', 'Uncacheable']
+PROPS = ['StatusOK', 'StableValidators', 'BodyCurrent', 'INMCurrent', 'Sound304', 'Uncacheable', 'MergedPlain']
 
 NN, NONE_E, GARB, NOHDR = (-1, -1), (-2, -2), (-3, -3), (-4, -4)
 NN_STR = hashlib.md5(b'NoneNone').hexdigest()
@@ -138,8 +143,9 @@ def install():
         w = _VTime.world
         if w is None:
             raise H.HTTPClientError('no world', response_code=500)
-        w.uplog.append(url)
         host = urlparse(url).netloc
+        if host != 'over.invalid':      # (the layer above the tile under test in merged requests: not part of the history)
+            w.uplog.append(url)
         q = {k.lower(): v[0] for k, v in parse_qs(urlparse(url).query).items()}
         width, height = int(q.get('width', 8)), int(q.get('height', 8))
         if host == 'base.invalid':
@@ -147,7 +153,7 @@ def install():
             data = _png_fill(width, height) if w.fail else _png(width, height, w.ver, w.next_size)
         elif w.fail:
             raise H.HTTPClientError('HTTP Error "%s": 500' % url, response_code=500)
-        elif host == 'overlay.invalid':
+        elif host in ('overlay.invalid', 'over.invalid'):
             data = _png_clear(width, height)
         else:
             data = _png(width, height, w.ver, w.next_size)
@@ -191,6 +197,8 @@ def _conf(d, backend):
             'wb': {'type': 'wms', 'req': {'url': 'http://base.invalid/wms', 'layers': 'b'}, 'supported_srs': ['EPSG:3857']},
             'wo': {'type': 'wms', 'req': {'url': 'http://overlay.invalid/wms', 'layers': 'o', 'transparent': True},
                    'supported_srs': ['EPSG:3857'], 'on_error': {500: {'response': 'transparent', 'cache': False}}},
+            'wo2': {'type': 'wms', 'req': {'url': 'http://over.invalid/wms', 'layers': 'o', 'transparent': True},
+                    'supported_srs': ['EPSG:3857'], 'on_error': {500: {'response': 'transparent', 'cache': False}}},
         },
         'caches': {
             'c_single': cache('single', 'w', meta_size=[1, 1], meta_buffer=0),
@@ -198,11 +206,15 @@ def _conf(d, backend):
             'c_bulk': cache('bulk', 't', meta_size=[2, 2], bulk_meta_tiles=True),
             'c_merge': dict(cache('merge', 'wb', meta_size=[1, 1], meta_buffer=0), sources=['wb', 'wo']),
         },
-        'layers': [{'name': 'single', 'title': 's', 'sources': ['c_single']},
+        'layers': [{'name': 'over', 'title': 'o', 'sources': ['c_over']},
+                   {'name': 'single', 'title': 's', 'sources': ['c_single']},
                    {'name': 'meta', 'title': 'm', 'sources': ['c_meta']},
                    {'name': 'bulk', 'title': 'b', 'sources': ['c_bulk']},
                    {'name': 'merge', 'title': 'g', 'sources': ['c_merge']}],
     }
+    # the layer of transparent tiles above the tile under test in merged requests: filled once, never refreshed
+    conf['caches']['c_over'] = dict(cache('over', 'wo2', meta_size=[1, 1], meta_buffer=0))
+    del conf['caches']['c_over']['refresh_before']
     if backend == 'file':
         conf['caches']['c_link'] = cache('link', 'w', meta_size=[1, 1], meta_buffer=0, link_single_color_images=True)
         conf['layers'].append({'name': 'link', 'title': 'k', 'sources': ['c_link']})
@@ -224,6 +236,10 @@ def _url(flavour, layer, coord):
     if flavour == 'wmts_kvp':
         return ('/service?SERVICE=WMTS&REQUEST=GetTile&VERSION=1.0.0&LAYER=%s&STYLE=&TILEMATRIXSET=g&TILEMATRIX=%d'
                 '&TILEROW=%d&TILECOL=%d&FORMAT=image/png' % (layer, z, y, x))
+    if flavour == 'wmsc2':
+        return ('/service?SERVICE=WMS&REQUEST=GetMap&VERSION=1.1.1&LAYERS=%s,over&SRS=EPSG:3857&BBOX=%s&WIDTH=8&HEIGHT=8'
+                '&FORMAT=image/png&STYLES=,&TILED=true%s' % (layer, ','.join(str(v) for v in bbox),
+                                                             '&TRANSPARENT=true' if layer == 'merge' else ''))
     if flavour == 'wmsc':
         return ('/service?SERVICE=WMS&REQUEST=GetMap&VERSION=1.1.1&LAYERS=%s&SRS=EPSG:3857&BBOX=%s&WIDTH=8&HEIGHT=8'
                 '&FORMAT=image/png&STYLES=&TILED=true%s' % (layer, ','.join(str(v) for v in bbox),
@@ -267,6 +283,10 @@ class World(object):
         self.app = webtest.TestApp(MapProxyApp(pc.configured_services(), pc.base_config))
         self.tm = pc.caches['c_' + path].caches()[0][2]
         self.cache_dir = os.path.join(self.dir, 'cache_' + path)
+        for t in sorted(COORD):             # the tiles of the layer 'over' exist before the history begins
+            r = self.app.get(_url('wmsc', 'over', COORD[t]) + '&TRANSPARENT=true', expect_errors=True)
+            if r.status_int != 200 or r.headers.get('ETag') is None:
+                raise tlc.MachineryError('the layer "over" could not be filled: %s %s' % (r.status, r.body[:200]))
 
     def close(self):
         if _VTime.world is self:
@@ -388,7 +408,7 @@ class World(object):
 FIXED = {'CopyInfo': True, 'ResetStamp': True, 'Branch': frozenset(FLAVOURS)}
 
 
-def consts(backend, path, flags, tiles=('t1', 't2'), flavours=FLAVOURS, maxclock=4, sizes=(1, 2), lenient=True):
+def consts(backend, path, flags, tiles=('t1', 't2'), flavours=ALL_FLAVOURS, maxclock=4, sizes=(1, 2), lenient=True):
     return dict(Lenient=lenient, Tiles=set(tiles), MetaOf={t: set(META[t]) & set(tiles) for t in tiles}, Flavours=set(flavours),
                 Backend=backend, Path=MPATH[path], CopyInfo=bool(flags['CopyInfo']), ResetStamp=bool(flags['ResetStamp']),
                 BranchFlavours=set(flags['Branch']), MaxClock=maxclock, Sizes=set(sizes),
@@ -399,7 +419,7 @@ def flags_text(flags):
     return 'CopyInfo=%s ResetStamp=%s BranchFlavours=%s' % (flags['CopyInfo'], flags['ResetStamp'], sorted(flags['Branch']))
 
 
-def exhaustive(ctx, name, backend, path, flags, maxver, maxclock, flavours=FLAVOURS, tiles=('t1', 't2'), workers=8,
+def exhaustive(ctx, name, backend, path, flags, maxver, maxclock, flavours=ALL_FLAVOURS, tiles=('t1', 't2'), workers=8,
                coverage=False, timeout=1500, lenient=True):
     d = ctx.sub('mc-' + name)
     mp, cp = tlc.write_mc(d, 'HttpCond', 'MC_HttpCond', consts(backend, path, flags, tiles, flavours, maxclock, lenient=lenient),
@@ -745,7 +765,7 @@ def random_history(rng, backend, path, nsteps, tiles=('t1', 't2', 't3', 't4')):
                 continue
             else:
                 t = rng.choice(tiles)
-                f = rng.choice(FLAVOURS)
+                f = rng.choice(ALL_FLAVOURS)
                 group = [t] if MPATH[path] == 'single' else sorted(META[t])
                 if 0 <= obs[t][0] and obs[t][0] // 2 <= w.thr:
                     # an expired tile is about to be refreshed: never within the time unit in which it was written
